@@ -14,7 +14,7 @@ META = {
                    "every dangling endpoint (truth table over source task / source output / sink task / keyword parameter, positional and "
                    "keyword edges) and never reads an unbound variable; build returns the error list iff there is one; builder methods never "
                    "mutate the receiver or a shallow copy in place; with_edge maps str -> keyword, int -> position. "
-                   "Not decided: signature inspection of arbitrary callables (from_callable), type-compatibility via eval.",
+                   "Later rules: dangling endpoints with dotted names, with_values declares no keyword of its own, with_node stores the task given, job-level validators leave bound values alone, no state kept between builder calls. Not decided: signature inspection of arbitrary callables (from_callable), type-compatibility via eval.",
     "assumptions": ["pyrsistent set/append and pydantic model_copy/dataclasses.replace are persistent (return new objects)"],
 }
 
